@@ -177,25 +177,11 @@ end
 
 def showErr : Err → String
   | .type => "err=type" | .value => "err=value" | .os => "err=os" | .runtime => "err=runtime"
+  | .malformed => "err=malformed"
 
 def insertSorted (e : String × H5) : Kids → Kids
   | [] => [e]
   | x :: xs => if e.1 < x.1 then e :: x :: xs else x :: insertSorted e xs
-
-mutual
-/-- tokens of the container as the reader sees it: groups → dicts with sorted names -/
-def renderH (sent : String) : H5 → Except Err (List String)
-  | .ds v => h5LeafToks sent v
-  | .grp kids => do
-    let body ← renderHKids sent kids
-    pure (["D", toString kids.length] ++ body)
-def renderHKids (sent : String) : List (String × H5) → Except Err (List String)
-  | [] => .ok []
-  | (k, h) :: rest => do
-    let a ← renderH sent h
-    let b ← renderHKids sent rest
-    pure (("ks:" ++ cps k) :: a ++ b)
-end
 
 mutual
 def sortH : H5 → H5
@@ -207,7 +193,7 @@ def sortKids : List (String × H5) → List (String × H5)
 end
 
 def runJson (t : Tree) : String :=
-  match jsonEncode Gen.Encode.jsonChain Gen.Encode.jsonFallback t with
+  match jsonRoundTrip Gen.Encode.jsonChain Gen.Encode.jsonFallback t with
   | .ok j => "ok " ++ " ".intercalate (renderJ j)
   | .error e => showErr e
 
@@ -221,7 +207,7 @@ def runH5 (kvs : List (Key × Tree)) : String :=
   match h5WriteFull sent kvs with
   | .error e => showErr e
   | .ok f =>
-    match renderH sent (sortH (.grp f)) with
+    match h5ReadToks sent (sortH (.grp f)) with
     | .ok toks => "ok " ++ " ".intercalate toks
     | .error e => showErr e
 
@@ -254,7 +240,8 @@ def handle (toks : List String) : String :=
       | some (vals, r) =>
         match parseTree? r with
         | some (.dict kvs, []) =>
-          match saveKwargs Gen.Encode.jsonChain Gen.Encode.jsonFallback (Gen.Encode.kwargsExtraKeys.zip vals) kvs with
+          match jsonRoundTrip Gen.Encode.jsonChain Gen.Encode.jsonFallback
+              (kwargsDict (Gen.Encode.kwargsExtraKeys.zip vals) kvs) with
           | .ok j => "ok " ++ " ".intercalate (renderJ j)
           | .error e => showErr e
         | _ => "bad-op"
